@@ -119,6 +119,11 @@ class Runner:
             self.comps = (A,)
             self.env0 = build_env({"kind": "discrete", "dims": [A], "obs_kind": "box", "stack": cls["stack"]}, dummy_tables(S, "discrete", (A,)))
             self.has_tl = "TimeLimit" in cls["stack"]
+        elif self.mode == "lerax_to_gym_cont":
+            from lerax.env.classic_control import CartPole
+            from lerax.wrapper import TimeLimit
+
+            self.cont_env = TimeLimit(CartPole(), int(cls.get("limit", 3)))
         elif self.mode == "gymnax_to_lerax":
             import gymnax
 
@@ -138,6 +143,9 @@ class Runner:
     def gen(self, rng, prop: str) -> dict:
         cls = self.cls
         plan = {"scenario": NAME, "cls": cls, "faults": []}
+        if self.mode == "lerax_to_gym_cont":
+            plan["ops"] = [{"op": "reset", "key": rng.choice([0, 1, rng.getrandbits(31)])}] + [{"op": "step", "key": 0, "a": rng.randrange(2)} for _ in range(rng.randint(7, 16))]
+            return plan
         if self.mode != "gymnax_to_lerax":
             plan["world"] = gen_tables(rng, S=self.S, kind="discrete", dims=(self.A,), bias={"p_stochastic": 0.0, "p_term": rng.choice([0.0, 0.2, 0.4]), "p_trunc": rng.choice([0.0, 0.15])})
             plan["time_limit"] = rng.choice([1, 2, 3, 4, 6])
@@ -173,6 +181,34 @@ class Runner:
     def execute(self, plan: dict, props: set | None = None) -> RunResult:
         props = set(props or PROPS)
         return getattr(self, "_exec_" + self.mode)(plan, props)
+
+    # ---- LeraxToGymEnv over an environment with a CONTINUOUS initial-state distribution, stepped through several episode ends
+    def _exec_lerax_to_gym_cont(self, plan, props) -> RunResult:
+        res = RunResult(Trace())
+        genv = LeraxToGymEnv(self.cont_env)
+        starts = []
+        for op in plan["ops"]:
+            if op["op"] == "reset":
+                obs, _ = genv.reset(seed=op["key"])
+                starts.append(np.asarray(obs).tobytes())
+                continue
+            obs, r, term, trunc, _ = genv.step(op["a"])
+            res.steps += 1
+            if term or trunc:
+                # the observation returned by a done step belongs to the freshly drawn initial state
+                starts.append(np.asarray(obs).tobytes())
+                res.events["E.adapter_auto_reset"] += 1
+        res.trace.ev("cont", starts=len(starts), distinct=len(set(starts)))
+        if len(starts) >= 3:
+            # continuous initial-state distribution: two episodes starting from bit-identical states has probability ~0 on correct code
+            if len(set(starts)) < len(starts):
+                for P in ("C01", "C13"):
+                    if P in props:
+                        res.fail(P, "step_state_fresh_on_done" if P == "C01" else "adapter_outputs", "auto_reset_returns_the_same_initial_state_again", episodes=len(starts), distinct=len(set(starts)))
+            else:
+                res.ok("C01", "step_state_fresh_on_done")
+                res.ok("C13", "adapter_outputs")
+        return res
 
     # ---- GymToLeraxEnv through the Gym-style API
     def _exec_gym_direct(self, plan, props) -> RunResult:
